@@ -1444,6 +1444,110 @@ class XPathFastPair:
         return (None, detail)
 
 
+class XPathMust:
+    """C08, the decision part: the must decisions of validation are the boolean value of the same evaluation. For
+    generated modules with must statements on explicit leaves, leaves with a default, non-presence containers (also
+    nested and wholly implicit ones), list instances and presence containers, and generated data: every must of every
+    data node of the tree completed with its default nodes is evaluated with lyd_eval_xpath3() (the evaluation that
+    XPathEval ties to the reference semantics); lyd_validate_module() has to refuse the data exactly when one of them is
+    false. The modules have no other constraint (no mandatory, when, unique, min/max-elements, leafref)."""
+    name = "xpath-must"
+    driver = "t_xpath"
+    kinds = ["rel"]
+
+    POOL = ["/c/name", "/c/fb", "not(/c/fb)", "/c/name = 'free'", "/c/n < 10", "/c/n = 5", "/c/mode != 'auto' or /c/fb", "count(/c/l) > 1",
+            "/c/l[k='a']", "/c/in/x", "/c/big = 'true'", "true()", "true()", "/c/in/deep/y = 1", "/c/p", "not(/c/p)", "/top2/a = 'aa'",
+            "string-length(.) >= 0", ". != 'auto' or /c/fb", "count(../*) > 2", "..", "/c/l/v = 3", "/c/l/lc/z = 'zz'", "/c/in/d = 'dd'",
+            "not(/c/l)", "/c/p/q = 'qq'", "count(//*) > 12", ". != 'dd'", ". = 3 or ../lc/z != 'zz'", "false()", "/c/nosuch"]
+
+    def n(self, tier, quick, thorough, scale=1.0):
+        return max(1, int((thorough if tier == "thorough" else quick) * scale))
+
+    def module(self, rng):
+        dens = rng.choice([0.25, 0.5, 1.0])               # few musts per module: one false must decides
+
+        def m(p=0.35):
+            if rng.random() >= p * 0.4 * dens:
+                return ""
+            return " ".join('must "%s";' % rng.choice(self.POOL) for _ in range(rng.choice([1, 1, 1, 2])))
+        return ('module m { yang-version 1.1; namespace "urn:m"; prefix m;\n'
+                ' container c { %s\n'
+                '  leaf name { type string; %s }\n'
+                '  leaf mode { type string; default auto; %s }\n'
+                '  leaf fb { type string; }\n'
+                '  leaf n { type int32; default 5; %s }\n'
+                '  leaf big { type boolean; default false; %s }\n'
+                '  container in { %s leaf x { type string; %s } leaf d { type string; default dd; %s }\n'
+                '   container deep { %s leaf y { type int32; default 1; %s } } }\n'
+                '  list l { key k; %s leaf k { type string; } leaf v { type int32; default 3; %s }\n'
+                '   container lc { %s leaf z { type string; default zz; %s } } }\n'
+                '  container p { presence p; %s leaf q { type string; default qq; %s } }\n'
+                ' }\n'
+                ' container top2 { %s leaf a { type string; default aa; %s } }\n'
+                '}' % (m(), m(), m(0.5), m(0.5), m(), m(0.5), m(), m(0.5), m(0.5), m(0.5), m(), m(0.5), m(0.5), m(0.5), m(), m(0.5),
+                       m(0.5), m(0.5)))
+
+    def data(self, rng):
+        r = rng.random
+        if r() < 0.1:
+            return "" if r() < 0.5 else '<top2 xmlns="urn:m"><a>%s</a></top2>' % rng.choice(["aa", "b"])
+        c = []
+        if r() < 0.6:
+            c.append("<name>%s</name>" % rng.choice(["free", "n", ""]))
+        if r() < 0.4:
+            c.append("<mode>%s</mode>" % rng.choice(["auto", "manual"]))
+        if r() < 0.4:
+            c.append("<fb>f</fb>")
+        if r() < 0.4:
+            c.append("<n>%d</n>" % rng.choice([5, 3, 10, 1000, -1]))
+        if r() < 0.3:
+            c.append("<big>%s</big>" % rng.choice(["true", "false"]))
+        if r() < 0.5:
+            inn = []
+            if r() < 0.6:
+                inn.append("<x>xx</x>")
+            if r() < 0.3:
+                inn.append("<d>%s</d>" % rng.choice(["dd", "e"]))
+            if r() < 0.4:
+                inn.append("<deep>%s</deep>" % ("<y>%d</y>" % rng.choice([1, 2]) if r() < 0.6 else ""))
+            c.append("<in>%s</in>" % "".join(inn))
+        for k in rng.sample(["a", "b", "c", "d"], rng.choice([0, 0, 1, 2, 3])):
+            e = "<k>%s</k>" % k
+            if r() < 0.4:
+                e += "<v>%d</v>" % rng.choice([3, 4])
+            if r() < 0.4:
+                e += "<lc>%s</lc>" % ("<z>%s</z>" % rng.choice(["zz", "y"]) if r() < 0.6 else "")
+            c.append("<l>%s</l>" % e)
+        if r() < 0.4:
+            c.append("<p>%s</p>" % ("<q>%s</q>" % rng.choice(["qq", "r"]) if r() < 0.5 else ""))
+        out = '<c xmlns="urn:m">%s</c>' % "".join(c)
+        if r() < 0.2:
+            out += '<top2 xmlns="urn:m">%s</top2>' % ("<a>%s</a>" % rng.choice(["aa", "b"]) if r() < 0.7 else "")
+        return out
+
+    def gen(self, rng, tier, scale=1.0):
+        L = []
+        for _ in range(self.n(tier, 60, 1500, scale)):
+            y = hexs(self.module(rng))
+            for _ in range(self.n(tier, 12, 30, 1.0)):
+                L.append("xpm\t%s\t%s" % (y, hexs(self.data(rng))))
+        return L
+
+    def judge(self, line, out):
+        f = line.split("\t")
+        what = "module %r, data %r" % (unhex(f[1]).decode(), unhex(f[2]).decode())
+        mm = re.fullmatch(r"M:(\d+):(\d+):(\d+):([01])( LEAK)?", out)      # (":OTHER": refused, but not because of a must)
+        if not mm:
+            return (None, "must decisions: %s on %s" % (out[:200], what))
+        nm, nfalse, nerr, refused = (int(x) for x in mm.groups()[:4])
+        if mm.group(5):
+            return (None, "must decisions: memory leak on %s" % what)
+        if (refused == 1) != (nfalse + nerr > 0):
+            return (None, "lyd_validate_module() %s data for which %d of the %d must expressions evaluate to false with lyd_eval_xpath3() on the "
+                          "tree with its default nodes (%d evaluation errors): %s" % ("refuses" if refused else "accepts", nfalse, nm, nerr, what))
+        return None
+
+
 class XPathSan:
     """sanitizer builds: evaluating generated expressions has no memory error, failed assertion or undefined behaviour
     (the former ones - asserts in moveto_node / the set hash table, get_node_pos restart, (long long) casts of NaN and
